@@ -85,6 +85,11 @@ fn one_case(seed: u64, i: u64) -> CaseOut {
             2 => Cmd::StepInto(*rng.pick(&[0u32, 1, 3, 1000])),
             3 => Cmd::StepOut,
             // a command that neither resumes nor changes anything must come back too, whatever it is asked about
+            // numbers far wider than a register are refused where the command is parsed, like any other bad argument
+            _ if rng.chance(1, 8) => Cmd::Rejected(
+                rng.s(&["print 99999999999", "goto 0x3000000000", "p ^+123456789012", "assembly x123456789abc", "step into 18446744073709551616",
+                    "break add 340282366920938463463374607431768211456", "move r0 99999999999"]).to_string(),
+            ),
             _ => Cmd::Inspect(match rng.below(8) {
                 0 => "registers".to_string(),
                 1 => format!("assembly x{:04x}", img.origin().wrapping_sub(1 + rng.below(3) as u16)),
